@@ -26,7 +26,8 @@ def make_fn(variant):
         from pandapower.pypower.idx_bus import PD, BUS_I, BUS_TYPE, SL_FAC as SL_FAC_BUS, REF, PV, PQ, VM, bus_cols
         from pandapower.pypower.idx_gen import GEN_BUS, GEN_STATUS, PG, SL_FAC, QMIN, QMAX
         from pandapower.pypower.idx_brch import F_BUS, T_BUS, BR_STATUS, BR_X, branch_cols
-        nb, gbus = 4, [0, 1, 1, 2]
+        nb = 4
+        gbus = [0, 0, 1, 2] if variant == "ref_weight_zero" else [0, 1, 1, 2]
         ng = len(gbus)
         bus, gen = c01._bus_gen_arrays(ctx, nb, ng)
         branch = np.zeros((3, branch_cols))
@@ -37,6 +38,8 @@ def make_fn(variant):
         if variant == "equal":
             w[1] = w[0]
             w[2] = w[0]
+        if variant == "ref_weight_zero":
+            w[0] = 0.0          # the ext_grid does not participate; a participating gen shares its bus
         pset = [0.0] + [ctx.var(f"pset{k}", -50., 50.) for k in (1, 2, 3)]
         for k in range(ng):
             gen[k, GEN_BUS], gen[k, GEN_STATUS], gen[k, SL_FAC], gen[k, PG] = float(gbus[k]), 1.0, w[k], pset[k]
@@ -52,12 +55,21 @@ def make_fn(variant):
             bg._normalise_slack_weights(ppc, gen_mask, np.zeros(ng, dtype=bool), np.array([], dtype=np.int64))
         swb = bus[:, SL_FAC_BUS]
         tot = w[0] + w[1] + w[2]
-        ctx.eq("bus_weight_ref", swb[0], w[0] / tot)
-        ctx.eq("bus_weight_shared_bus", swb[1], (w[1] + w[2]) / tot)
-        ctx.eq("bus_weight_non_participant", swb[2], 0.0)
+        for b in range(nb):
+            wb = 0.0
+            for k in range(ng):
+                if gbus[k] == b:
+                    wb = wb + w[k]
+            ctx.eq(f"bus_weight/{b}", swb[b], wb / tot)
         slack = ctx.var("slack", -5., 5.)
         # setpoint injections as makeSbus gives them
-        Pinj = [(0.0 - bus[0, PD]) / base, (pset[1] + pset[2] - bus[1, PD]) / base, (pset[3] - bus[2, PD]) / base, (0.0 - bus[3, PD]) / base]
+        Pinj = []
+        for b in range(nb):
+            pg = 0.0
+            for k in range(ng):
+                if gbus[k] == b:
+                    pg = pg + pset[k]
+            Pinj.append((pg - bus[b, PD]) / base)
         mk = (lambda re, im: SComplex(re, im)) if ctx.symbolic else (lambda re, im: complex(re, im))
         Sbus = ctx.array([mk(p, 0.0) for p in Pinj])
         if ctx.mode == "sym":
@@ -70,6 +82,8 @@ def make_fn(variant):
                 return ctx.array([s.conjugate() for s in Sc])
         V = ctx.array([1.0, 1.0, 1.0, 1.0]) if not ctx.symbolic else ctx.array([mk(1.0, 0.0)] * nb)
         ref, pv, pq = np.array([0]), np.array([1, 2]), np.array([3])
+        if variant == "ref_weight_zero":
+            bus[1, BUS_TYPE], bus[2, BUS_TYPE] = PV, PV
         F = nf._evaluate_Fx(Y2(), V, Sbus, ref, pv, pq, swb, True, slack)
         if ctx.mode == "sym":
             for f in F:
@@ -88,17 +102,22 @@ def make_fn(variant):
         with patched(nr, pfsoln_pypower=fake_pfsoln):
             nr.ppci_to_pfsoln({"internal": internal, "bus": bus, "gen": gen}, options)
         ctx.true("participants_are_treated_as_reference_machines", sorted(int(x) for x in cap["ref_gens"]) == [0, 1, 2])
-        dev = [(gen[k, PG] - pset[k]) / w[k] for k in range(3)]
-        ctx.eq("deviation_per_weight_equal/ext_grid_vs_gen1", dev[0], dev[1])
-        ctx.eq("deviation_per_weight_equal/gen1_vs_gen2_same_bus", dev[1], dev[2])
-        ctx.eq("non_participant_keeps_setpoint", gen[3, PG], pset[3])
+        part = [k for k in range(3) if not (isinstance(w[k], float) and w[k] == 0.0)]
+        dev = {k: (gen[k, PG] - pset[k]) / w[k] for k in part}
+        for a, b in zip(part, part[1:]):
+            ctx.eq(f"deviation_per_weight_equal/gen{a}_vs_gen{b}", dev[a], dev[b])
+        for k in range(ng):
+            if k not in part:
+                ctx.eq(f"non_participant_keeps_setpoint/gen{k}", gen[k, PG], pset[k])
         total_dev = (gen[0, PG] - pset[0]) + (gen[1, PG] - pset[1]) + (gen[2, PG] - pset[2])
         ctx.eq("sum_of_deviations_is_the_slack_power", total_dev, -slack * base)
     return fn
 
 
 def instances(tier):
-    out = [Inst("shared_bus", make_fn("general"), nvars=40, samples=3, timeout_ms=60000, raises=(ValueError, NotImplementedError), meta=dict(variant="general"))]
+    out = [Inst("shared_bus", make_fn("general"), nvars=40, samples=3, timeout_ms=60000, raises=(ValueError, NotImplementedError), meta=dict(variant="general")),
+           Inst("ext_grid_weight_zero_shares_bus_with_participant", make_fn("ref_weight_zero"), nvars=40, samples=3, timeout_ms=60000,
+                raises=(ValueError, NotImplementedError), meta=dict(variant="ref_weight_zero"))]
     if tier == "thorough":
         out.append(Inst("equal_weights", make_fn("equal"), nvars=40, samples=3, timeout_ms=60000, raises=(ValueError, NotImplementedError), meta=dict(variant="equal")))
     return out
